@@ -15,7 +15,7 @@ import z3
 
 from pyvc import dsl
 from pyvc.dsl import Num, And, Or, Not, Implies
-from pyvc.heap import RefV, FnV, map_same, cls_f
+from pyvc.heap import RefV, FnV, StrV, map_same, cls_f
 from pyvc.state import Oblig, Undecided
 from pyvc.contracts import RelationalContract, LoopSpec, ForallInt, value_same
 from pyvc.symexec import NONEV
@@ -185,7 +185,7 @@ def verify_propagation(ex, contract, timeout_ms=30000):
 
 
 def contracts():
-    out = []
+    out = [(RelationalContract("bt.core.Node._add_children", [("children", "any"), ("dc", "bool")], _log_only("_add_children"), self_cls="Node", note="per-element contract of the registration loop, see verify_add_children"), verify_add_children)]
     for q, sp in SPECS.items():
         out.append((RelationalContract(q, [sp["param"]], make_apply(q), self_cls=sp["cls"], note="sets %s on self and recurses into the children" % sp["field"]), verify_propagation))
     return out
@@ -345,6 +345,237 @@ def verify_create_child(ex, contract, timeout_ms=30000):
         fr.canary = str(s.check())
         discharge(obligs, timeout_ms, fr, q)
         fr.stats = dict(feas_queries=tx.stats.feas_queries, feas_s=round(tx.stats.feas_time, 3), inlined=sorted(tx.stats.inlined), contracts_used=sorted(tx.stats.contracts_used))
+    except Undecided as e:
+        fr.undecided = str(e)
+    except Exception as e:
+        fr.undecided = "ENGINE-ERROR: %s\n%s" % (e, traceback.format_exc())
+    return fr
+
+
+# ------------------------------------------------------------------ Node._add_children: per-element contract of the registration loop
+class ParamList(object):
+    """the `children` argument when it is a list: all strings, or all node objects (two verification variants)"""
+
+    def __init__(self, kind, n, at):
+        self.kind, self.n, self.at = kind, n, at
+
+
+ut_has = z3.Function("universe_tickers_has", dsl.Ref, dsl.Str, z3.BoolSort())
+
+
+def _add_children_executor(ex):
+    """tolerant executor (for its copy.deepcopy model; any abstracted statement fails an obligation) + class instantiation, list/dict
+    registration stores and string-list bookkeeping recorded in the log"""
+    import ast
+    from pyvc.tolerant import TolerantExecutor
+    from pyvc.symexec import BoundFn, _Raised
+    from pyvc.heap import StrV, ListV, DictV
+    from pyvc.state import Outcome
+
+    base0 = _tree_executor(ex)
+    tol = TolerantExecutor(ex.prog, ex.schema, dict(ex.contracts), inline=set(ex.inline))
+    TB = type("TolTree", (type(base0), TolerantExecutor), {})
+
+    class AddExecutor(TB):
+        def call_special(self, st, f, e):
+            if f.name == "isinstance" and len(e.args) == 2 and isinstance(e.args[1], ast.Name) and e.args[1].id in ("dict", "str"):
+                out = []
+                for (s, v) in self.eval(e.args[0], st):
+                    if e.args[1].id == "dict":
+                        out.append((s, False if isinstance(v, (ParamList, StrV, RefV)) else self._undecided("isinstance(.., dict)")))
+                    else:
+                        out.append((s, isinstance(v, StrV)))
+                return out
+            if f.name == "getattr" and len(e.args) == 3 and isinstance(e.args[1], ast.Constant) and e.args[1].value == "lazy_add":
+                out = []
+                for (s, v) in self.eval(e.args[0], st):
+                    # strategies have no lazy_add attribute (default False); securities carry the flag
+                    out.append((s, And(cls_in(self.schema, v.term, SEC_CLASSES), s.heap.get(v, "lazy_add"))))
+                return out
+            return TB.call_special(self, st, f, e)
+
+        def iter_adapter(self, it, st):
+            if isinstance(it, ParamList):
+                def elem(s, i, it=it):
+                    t = it.at(Num.lift(i).r)
+                    if it.kind == "str":
+                        return StrV(t)
+                    r = RefV(t, "Node")
+                    s.assume(And(t != dsl.NONE, cls_in(self.schema, t, SEC_CLASSES + STRAT_CLASSES), s.heap.get(r, "_issec") == cls_in(self.schema, t, SEC_CLASSES)))
+                    return r
+
+                return it.n, elem, None
+            return TB.iter_adapter(self, it, st)
+
+        def load_attr(self, st, obj, attr):
+            if isinstance(obj, RefV) and attr == "_universe_tickers":
+                return [(st, ("strlist", obj, "_universe_tickers"))]
+            if isinstance(obj, RefV) and attr == "_strat_children":
+                return [(st, ("strlist", obj, "_strat_children"))]
+            if isinstance(obj, tuple) and len(obj) == 3 and obj[0] == "strlist" and attr == "append":
+                return [(st, BoundFn("strlist_append", "append", recv=obj))]
+            if isinstance(obj, ListV) and obj.field == "_childrenv" and attr == "append":
+                return [(st, BoundFn("childlist_append", "append", recv=obj))]
+            return TB.load_attr(self, st, obj, attr)
+
+        def ext_in(self, a, b, st):
+            if isinstance(b, tuple) and len(b) == 3 and b[0] == "strlist" and b[2] == "_universe_tickers" and isinstance(a, StrV):
+                added = [x for x in st.log if len(x) == 3 and x[0] == "append:_universe_tickers" and z3.is_true(z3.simplify(x[1].term == b[1].term))]
+                return Or(ut_has(b[1].term, a.term), *[x[2].term == a.term for x in added])
+            return TB.ext_in(self, a, b, st)
+
+        def call_value(self, st, f, pos, kw):
+            if isinstance(f, BoundFn) and f.kind == "strlist_append":
+                st.log.append(("append:" + f.recv[2], f.recv[1], pos[0]))
+                return [(st, NONEV)]
+            if isinstance(f, BoundFn) and f.kind == "childlist_append":
+                owner = f.recv.owner
+                h = st.heap
+                n = h.list_len(owner, "_childrenv")
+                arr, lens = h.arr("_childrenv"), h.lenarr("_childrenv")
+                h.maps["_childrenv"] = arr.store(owner.term, z3.Store(arr.select(owner.term), n.r, pos[0].term))
+                h.maps["_childrenv#len"] = lens.store(owner.term, n.r + 1)
+                return [(st, NONEV)]
+            return TB.call_value(self, st, f, pos, kw)
+
+        def ext_store_subscript(self, st, b, i, v):
+            if isinstance(b, tuple) and len(b) == 2 and b[0] == "lazydict" and isinstance(i, StrV) and isinstance(v, RefV):
+                st.log.append(("lazy_register", b[1], i, v))
+                return [st]
+            if isinstance(b, DictV) and b.field == "children" and isinstance(i, StrV) and isinstance(v, RefV):
+                h = st.heap
+                hasm, chm = h.hasarr("children"), h.arr("children")
+                h.maps["children#has"] = hasm.store(b.owner.term, z3.Store(hasm.select(b.owner.term), i.term, z3.BoolVal(True)))
+                h.maps["children"] = chm.store(b.owner.term, z3.Store(chm.select(b.owner.term), i.term, v.term))
+                return [st]
+            return TB.ext_store_subscript(self, st, b, i, v)
+
+    t = AddExecutor.__new__(AddExecutor)
+    t.__dict__.update(tol.__dict__)
+    t.__dict__.update({k: v for k, v in base0.__dict__.items() if k not in t.__dict__})
+    t.contracts = dict(ex.contracts)
+    t.loop_specs = dict(ex.loop_specs)
+    t.abstracted = []
+    return t
+
+
+def _add_loop_inv(ctx):
+    """per-element contract: what one pass of the registration loop does with its element, from whatever state the loop head is in"""
+    st = ctx.cur
+    if ctx.phase != "step":
+        return []
+    H = ctx.head
+    self = ctx.entry.locals["self"]
+    variant = ctx.entry.ghost["variant"]
+    dc = ctx.entry.locals["dc"]
+    plist = ctx.entry.ghost["plist"]
+    ih = ctx.i - 1
+    h0, h1 = H.heap, st.heap
+    new = st.log[len(H.log):]
+    names4 = [x[0].rsplit(".", 1)[-1] for x in new if len(x) == 4]
+    out = []
+    n0, n1 = h0.list_len(self, "_childrenv"), h1.list_len(self, "_childrenv")
+    if variant == "str":
+        nm = StrV(plist.at(ih.r))
+        news = [x for x in new if len(x) == 4 and x[0].startswith("new:")]
+        regs = [x for x in new if len(x) == 4 and x[0] == "lazy_register"]
+        out.append(("string:one-lazy-Security-of-that-name-is-created-and-registered-not-attached", And(len(news) == 1 and news[0][0] == "new:Security" and news[0][2][0].term == nm.term and news[0][3].get(news[0][1], "lazy_add") is not False,
+                                                                                                       len(regs) == 1 and regs[0][2].term == nm.term and regs[0][3].term == news[0][1].term if (news and regs) else False, n1.eq(n0))))
+        uts = [x for x in new if len(x) == 3 and x[0] == "append:_universe_tickers"]
+        out.append(("string:recorded-as-a-declared-ticker", And(len(uts) == 1, uts[0][2].term == nm.term) if len(uts) == 1 else False))
+        out.append(("string:a-lazily-created-security-carries-the-lazy-flag", bool(news) and _zb(news[0][3].get(news[0][1], "lazy_add"))))
+        return out
+    # node element (possibly deep-copied first)
+    orig = RefV(plist.at(ih.r), "Node")
+    copies = [x for x in new if x[0] == "deepcopy"]
+    if dc is True:
+        out.append(("node:deep-copied-exactly-once-when-asked", len(copies) == 1 and copies[0][1].term is not None and z3.is_true(z3.simplify(copies[0][1].term == orig.term))))
+        c = copies[0][2][0] if copies else orig
+    else:
+        out.append(("node:not-copied-when-not-asked", len(copies) == 0))
+        c = orig
+    lazy = And(cls_in(h0.schema, c.term, SEC_CLASSES), h0.get(c, "lazy_add")) if dc is not True else And(cls_in(h0.schema, orig.term, SEC_CLASSES), h0.get(orig, "lazy_add"))
+    nm = h1.get(c, "name")
+    regs = [x for x in new if len(x) == 4 and x[0] == "lazy_register"]
+    isstrat = cls_in(h0.schema, orig.term, STRAT_CLASSES)
+    sr = [x for x in new if len(x) == 4 and x[0].endswith("._set_root")]
+    ip = [x for x in new if len(x) == 4 and x[0].endswith(".use_integer_positions")]
+    attached = And(n1.eq(n0 + 1), h1.list_at(self, "_childrenv", n0).term == c.term, h1.dict_has(self, "children", nm), h1.dict_at(self, "children", nm).term == c.term, h1.get(c, "parent").term == self.term)
+    out.append(("node:lazy-ones-are-registered-not-attached", Implies(lazy, And(n1.eq(n0), len(regs) == 1 and regs[0][3].term == c.term if regs else False))))
+    out.append(("node:others-are-attached-at-the-end-under-their-name-with-self-as-parent", Implies(Not(lazy), attached if not regs else False)))
+    out.append(("node:attached-ones-get-root-and-integer-mode-pushed-down-once", Implies(Not(lazy), And(len(sr) == 1 and sr[0][1].term == c.term and sr[0][2][0].term == h0.get(self, "root").term if sr else False,
+                                                                                                     len(ip) == 1 and ip[0][1].term == c.term and _same(ip[0][2][0], h0.get(self, "integer_positions")) if ip else False))))
+    sc = [x for x in new if len(x) == 3 and x[0] == "append:_strat_children"]
+    ut = [x for x in new if len(x) == 3 and x[0] == "append:_universe_tickers"]
+    out.append(("node:strategies-raise-the-flag-and-are-listed-securities-become-declared-tickers",
+                And(Implies(isstrat, And(h1.get(self, "_has_strat_children"), len(sc) == 1 and sc[0][2].term == nm.term if sc else False, len(ut) == 0)),
+                    Implies(Not(isstrat), And(len(sc) == 0, Or(len(ut) == 1 and ut[0][2].term == nm.term if ut else False, ut_has(self.term, nm.term)) if len(ut) <= 1 else False)))))
+    return out
+
+
+def _add_loop_havoc(ctx):
+    # everything the loop may touch is unknown at the head: the per-element clauses do not depend on what earlier elements did
+    return ["children", "children#has", "_childrenv", "_childrenv#len", "_has_strat_children", "parent", "root", "integer_positions", "lazy_add", "name",
+            "_bidoffer_set", "_fixed_income", "_issec", "_paper_trade", "commission_fn"]
+
+
+ADD_LOOP = LoopSpec(_add_loop_inv, havoc_heap=_add_loop_havoc, name="register each child")
+LOOPS[("bt.core.Node._add_children", 1)] = ADD_LOOP   # ordinal 0 is the dict-renaming loop (not reached for list arguments)
+LOOPS[("bt.core.Node._add_children", 0)] = LoopSpec(lambda ctx: [], name="dict renaming (not reached: list argument)")
+
+
+def verify_add_children(ex, contract, timeout_ms=30000, variant="nodes"):
+    """variants: 'str' (list of names), 'nodes' (list of node objects, dc=False), 'nodes-dc' (dc=True).  Dict arguments: bounded only."""
+    from pyvc.verify import FuncReport, discharge
+    from pyvc.state import State
+    from pyvc.heap import Heap
+
+    q = contract.qualname
+    fr = FuncReport(q)
+    name = "Node._add_children[%s]" % variant
+    try:
+        fi = ex.prog.func(q)
+        fr.source_hash = fi.source_hash()
+        ax = _add_children_executor(ex)
+        ax.contracts.pop(q, None)
+        st0 = State(Heap(ex.schema))
+        self = RefV(dsl.fresh_ref("self"), "StrategyBase")
+        E = st0.heap
+        st0.assume(And(self.term != dsl.NONE, E.get(self, "root").term != dsl.NONE, E.list_len(self, "_childrenv").r >= 0, Not(newobj_f(self.term))))
+        kind = "str" if variant == "str" else "node"
+        n = Num(z3.Int(dsl.fresh_name("n_children")), False, True)
+        st0.assume(n.r >= 0)
+        at = z3.Function(dsl.fresh_name("child_arg_at"), z3.IntSort(), dsl.Str if kind == "str" else dsl.Ref)
+        plist = ParamList(kind, n, at)
+        dc = variant == "nodes-dc"
+        st0.ghost.update(variant=kind, plist=plist)
+        for k in ("children", "children#has", "_childrenv", "_childrenv#len", "_has_strat_children", "parent", "root", "integer_positions", "lazy_add", "name"):
+            try:
+                E.ensure(k)
+            except Exception:
+                pass
+        t0 = time.time()
+        exits = ax.run_function(fi, st0.fork(), self, [plist, dc])
+        fr.symexec_s = time.time() - t0
+        fr.paths = len(exits)
+        obligs = []
+        for (st, oc) in exits:
+            kind_ = oc.kind if oc.kind != "raise" else "raise:" + oc.exc
+            fr.exits[kind_] = fr.exits.get(kind_, 0) + 1
+            obligs.extend(st.obligs)
+        # the element contract is only as good as the model: nothing in the function may have been abstracted away
+        if ax.abstracted:
+            raise Undecided("statement(s) outside the model of _add_children: %s" % "; ".join(str(a)[:100] for a in ax.abstracted[:3]))
+        for o in obligs:
+            if o.id.startswith(q):
+                o.id = o.id.replace(q, name)
+            o.props = P19
+        s = z3.Solver()
+        for p in st0.pc:
+            s.add(p)
+        fr.canary = str(s.check())
+        discharge(obligs, timeout_ms, fr, q)
+        fr.stats = dict(feas_queries=ax.stats.feas_queries, feas_s=round(ax.stats.feas_time, 3), inlined=sorted(ax.stats.inlined), contracts_used=sorted(ax.stats.contracts_used), abstracted=[str(a)[:120] for a in ax.abstracted[:5]])
     except Undecided as e:
         fr.undecided = str(e)
     except Exception as e:
